@@ -193,6 +193,28 @@ def relational_vector(vec):
             if not (allclose(alone.stock.values, a.stock.values[(slice(None),) + S.lab_idx[li]], scale) and
                     allclose(alone.outflow.values, a.outflow.values[(slice(None),) + S.lab_idx[li]], scale)):
                 problems.append(tag + f"{{C16}} label {li + 1} does not evolve as if computed alone with its own parameters")
+        # C16 with a DEGENERATE neighbour: one label's spread parameter is exactly zero (its own results are then undefined);
+        # every other label still evolves as if computed alone
+        if len(S.lab_idx) > 1 and model in ("NormalLifetime", "FoldedNormalLifetime", "LogNormalLifetime") and \
+                config["prmkind"] in ("lab", "both"):
+            cls, _, names = lifetime_closed.MODELS[model]
+            first, second = lifetime_closed.params(model, S, variant)
+            a1, a2 = lifetime_closed.build_arrays(S, first, lambda c, k: 0.0 if k == 0 else second(c, k), variant)
+            with np.errstate(all="ignore"):
+                joint = flodym.InflowDrivenDSM(dims=S.dims, time_letter="t",
+                                               lifetime_model=cls(dims=S.dims, time_letter="t", **{names[0]: a1, names[1]: a2}))
+                joint.inflow.values[...] = d1
+                joint.compute()
+            lj = 1 + rnd.randrange(len(S.lab_idx) - 1)
+            cfgj = dict(config)
+            cfgj["nl"] = 1
+            cfgj["prm8"] = [[row[lj]] for row in config["prm8"]]
+            cfgj["prmkind"] = {"lab": "scalar", "both": "cohort"}[config["prmkind"]]
+            Sj = Setup(cfgj)
+            alone_j = run_id(Sj, model, variant, d1[(slice(None),) + S.lab_idx[lj]])
+            selj = (slice(None),) + S.lab_idx[lj]
+            if not (allclose(alone_j.stock.values, joint.stock.values[selj], scale) and allclose(alone_j.outflow.values, joint.outflow.values[selj], scale)):
+                problems.append(tag + f"{{C16}} label {lj + 1} does not evolve as if computed alone when ANOTHER label's spread parameter is exactly zero")
         # C10 inverse and solver agreement (where every cohort keeps >= 5% over its first interval)
         diag = np.array([sf[t, t] for t in range(S.n)])
         if np.all(diag >= 0.05):
@@ -201,6 +223,8 @@ def relational_vector(vec):
             amp = float(1.0 / np.min(diag)) ** S.n  # conditioning of the triangular solve
             tol_scale = scale * max(1.0, min(amp, 1e4))
             for name, sd in (("manual", m), ("lapack", l)):
+                if not np.array_equal(sd.stock.values, a.stock.values):
+                    problems.append(tag + f"{{C10,C16,C15}} stock-driven ({name}): compute() changed the prescribed stock")
                 if not allclose(sd.inflow.values, d1, tol_scale):
                     problems.append(tag + f"{{C10}} stock-driven ({name}) does not return the inflow that produced the stock")
                 if not allclose(sd.outflow.values, a.outflow.values, tol_scale):
@@ -215,6 +239,17 @@ def relational_vector(vec):
                     problems.append(tag + f"{{C10}} inflow-driven model driven with the stock-driven ({name}) inflow does not reproduce the stock")
             if not allclose(m.inflow.values, l.inflow.values, tol_scale):
                 problems.append(tag + "{C10} manual and lapack solvers disagree")
+            # C16 for the stock-driven model: one label computed ALONE (a time-only stock) gives that label's series of the joint run
+            if len(S.lab_idx) > 1:
+                sel = (slice(None),) + S.lab_idx[li]
+                for name, joint in (("manual", m), ("lapack", l)):
+                    prescribed = a.stock.values[sel].copy()
+                    alone_sd = run_sd(S1, model, variant, prescribed.copy(), name)
+                    if not (allclose(alone_sd.inflow.values, joint.inflow.values[sel], tol_scale) and
+                            allclose(alone_sd.outflow.values, joint.outflow.values[sel], tol_scale) and
+                            np.array_equal(alone_sd.stock.values, prescribed)):
+                        problems.append(tag + f"{{C16,C10}} stock-driven ({name}): label {li + 1} computed alone (time-only stock) differs from "
+                                              f"its series in the joint model (inflow / outflow / the stock left after compute)")
             # a stock that implies negative inflow (C10) and is not reachable with non-negative inflow
             s2 = b.stock.values.copy()
             m2 = run_sd(S, model, variant, s2, "manual")
